@@ -162,3 +162,206 @@ def truth_classes(frags, keyf=None):
         k = (f['cell'], f['ctg'], f['site'], bool(f['rev']), f['umi']) if keyf is None else keyf(f)
         out.setdefault(k, set()).add(f['n'])
     return out
+
+
+# --------------------------------------------------------------------------------------
+# coordinates per protocol flavour (overrides the early draft above)
+
+_OFF = {'nla': (0, 4), 'chic': (2, -1), 'plain': (0, 0)}
+
+
+def mate_coords(frag):  # noqa: F811  (final definition)
+    """reference (start, end) of the aligned part of R1 and R2; None for an absent / unmapped mate"""
+    site, L, rl, clip = frag['site'], frag['L'], frag['rl'], frag.get('clip', 0)
+    rl1 = rl2 = min(rl, L)
+    fo, ro = _OFF[frag.get('kind', 'nla')]
+    if not frag['rev']:
+        a = site + fo
+        r1s, r1e = a + clip, a + rl1
+        r2e = a + L
+        r2s = r2e - rl2
+    else:
+        a = site + ro
+        r1e, r1s = a - clip, a - rl1
+        r2s = a - L
+        r2e = r2s + rl2
+    d = frag.get('defect')
+    if d in ('single', 'orphan_r1', 'r2unmapped'):
+        r2s = r2e = None
+    if d in ('orphan_r2', 'r1unmapped'):
+        r1s = r1e = None
+    if d == 'unplaced':
+        r1s = r1e = r2s = r2e = None
+    return r1s, r1e, r2s, r2e
+
+
+def full_coords(frag):
+    """coordinates both mates would have if mapped (used to place unmapped mates and to bound the fragment)"""
+    f = dict(frag)
+    f['defect'] = None
+    return mate_coords(f)
+
+
+MX = {'nla': 'NLAIII384C8U3', 'chic': 'scCHIC384C8U3', 'plain': 'CS2C8U6'}
+_BCS = ['ACACACTA', 'ACAGTGAT', 'CGATGTAA', 'TTAGGCAT', 'TGACCAAT', 'GCCAATGG', 'CAGATCTA', 'ACTTGATG']
+
+
+def read_name(frag, encoded, lib='LIB'):
+    n = frag['n']
+    fc = f"HFLOW{frag.get('fc', 1)}"
+    lane = frag.get('lane', 1)
+    if not encoded:
+        return f'NS500414:628:{fc}:{lane}:11101:{n}:{n + 1}'
+    kind = frag.get('kind', 'nla')
+    bc = _BCS[frag['cell'] % len(_BCS)]
+    umi = frag['umi']
+    s = (f"Is:NS500414;RN:628;Fc:{fc};La:{lane};Ti:11101;CX:{n};CY:{n + 1};Fi:N;CN:0;aa:CGATGT;aA:CGATGT;aI:2;LY:{lib};"
+         f"RX:{umi};RQ:{'G' * len(umi)};bi:{frag['cell'] + 1};bc:{bc};BC:{bc};QT:{'G' * len(bc)};MX:{MX[kind]}")
+    if kind == 'chic':
+        s += ';lh:TA;lq:GG'
+    return s
+
+
+def identity_of(query_name):
+    """fragment id from an input (encoded or plain) or output (decoded) read name"""
+    if query_name.startswith('Is:'):
+        for kv in query_name.split(';'):
+            if kv.startswith('CX:'):
+                return int(kv[3:])
+    return int(query_name.split(':')[5])
+
+
+def fragment_records(header, frag, encoded=True, lib='LIB'):
+    """all alignment records of one fragment as they appear in the *input* BAM"""
+    import pysam
+    kind = frag.get('kind', 'nla')
+    d = frag.get('defect')
+    clip = frag.get('clip', 0)
+    fr1s, fr1e, fr2s, fr2e = full_coords(frag)
+    qname = read_name(frag, encoded, lib)
+    paired = d != 'single'
+    r1_present = d not in ('orphan_r2',)
+    r2_present = d not in ('single', 'orphan_r1')
+    r1_mapped = d not in ('r1unmapped', 'unplaced')
+    r2_mapped = d not in ('r2unmapped', 'unplaced')
+    ctg = frag['ctg']
+    recs = []
+
+    def tagit(s):
+        if not encoded:
+            s.set_tag('SM', f"{lib}_{frag['cell'] + 1}")
+            s.set_tag('RX', frag['umi'])
+            s.set_tag('MX', MX[kind])
+            s.set_tag('Fc', f"HFLOW{frag.get('fc', 1)}")
+            s.set_tag('La', str(frag.get('lane', 1)))
+            s.set_tag('LY', lib)
+            s.set_tag('BC', _BCS[frag['cell'] % len(_BCS)])
+            s.set_tag('bi', frag['cell'] + 1)
+            if kind == 'chic':
+                s.set_tag('lh', 'TA')
+        if frag.get('dup'):     # stale state from "an earlier tool"
+            s.set_tag('RC', frag['dup'].get('RC', 3))
+            s.set_tag('af', 9)
+            s.set_tag('TF', 9)
+
+    def mk(is_r1, start, end, reverse, mapped, mate_mapped, mate_start, mate_reverse, seq, cigar):
+        s = pysam.AlignedSegment(header)
+        s.query_name = qname
+        flag = 0
+        if paired:
+            flag |= 0x1 | (0x40 if is_r1 else 0x80)
+            if mapped and mate_mapped and r1_present and r2_present:
+                flag |= 0x2
+            if not mate_mapped:
+                flag |= 0x8
+            elif mate_reverse:
+                flag |= 0x20
+        if not mapped:
+            flag |= 0x4
+        elif reverse:
+            flag |= 0x10
+        if d == 'qcfail':
+            flag |= 0x200
+        if frag.get('dup') and frag['dup'].get('bit'):
+            flag |= 0x400
+        s.flag = flag
+        s.query_sequence = seq
+        s.query_qualities = pysam.qualitystring_to_array('I' * len(seq))
+        if d == 'unplaced':
+            s.reference_id = -1
+            s.reference_start = -1
+            s.next_reference_id = -1
+            s.next_reference_start = -1
+            s.mapping_quality = 0
+        else:
+            s.reference_id = ctg
+            s.reference_start = start
+            s.mapping_quality = frag.get('mq', 60) if mapped else 0
+            if mapped:
+                s.cigartuples = cigar
+            if paired:
+                s.next_reference_id = ctg
+                s.next_reference_start = mate_start
+                if mapped and mate_mapped:
+                    tl = max(fr1e, fr2e) - min(fr1s, fr2s)
+                    s.template_length = tl if start == min(fr1s, fr2s) else -tl
+        tagit(s)
+        return s
+
+    ln1 = fr1e - fr1s
+    if kind == 'nla':
+        motif = 'CATG' if d != 'nomotif' else 'CTTG'
+        body = _seq(frag['n'], 1, max(0, ln1 + clip - 4))
+        seq1 = (motif + body) if not frag['rev'] else (body + motif)
+        seq1 = seq1[:ln1 + clip] if not frag['rev'] else seq1[-(ln1 + clip):]
+    else:
+        seq1 = _seq(frag['n'], 1, ln1 + clip)
+    cig1 = [(0, ln1)]
+    if clip:
+        cig1 = [(4, clip), (0, ln1)] if not frag['rev'] else [(0, ln1), (4, clip)]
+    ln2 = fr2e - fr2s
+    seq2 = _seq(frag['n'], 2, ln2)
+    # an unmapped mate is placed at its mate's position
+    r1_start = fr1s if r1_mapped else fr2s
+    r2_start = fr2s if r2_mapped else fr1s
+    if r1_present:
+        recs.append(mk(True, r1_start, fr1e, frag['rev'], r1_mapped, r2_mapped if r2_present or d == 'orphan_r1' else True,
+                       r2_start, not frag['rev'], seq1, cig1))
+    if r2_present:
+        recs.append(mk(False, r2_start, fr2e, not frag['rev'], r2_mapped, r1_mapped, r1_start, frag['rev'], seq2, [(0, ln2)]))
+    extra = frag.get('extra')      # secondary / supplementary copy of R1 (dropped by the mate-pairing library; outside the claim)
+    if extra and r1_present and r1_mapped:
+        s = mk(True, max(0, fr1s + extra.get('shift', 7)), None, frag['rev'], True, r2_mapped, r2_start, not frag['rev'], seq1, cig1)
+        s.flag |= 0x100 if extra['kind'] == 'secondary' else 0x800
+        recs.append(s)
+    return recs
+
+
+def write_input_bam(path, contigs, frags, encoded=True, lib='LIB', extra_header=None):
+    """coordinate-sorted, indexed input BAM; returns number of records"""
+    import pysam
+    hd = {'HD': {'VN': '1.6', 'SO': 'coordinate'}, 'SQ': [{'SN': c, 'LN': l} for c, l in contigs]}
+    if extra_header:
+        hd.update(extra_header)
+    header = pysam.AlignmentHeader.from_dict(hd)
+    recs = []
+    for f in frags:
+        for r in fragment_records(header, f, encoded=f.get('encoded', encoded), lib=lib):
+            recs.append(r)
+    big = len(contigs) + 1
+    recs.sort(key=lambda r: (r.reference_id if r.reference_id >= 0 else big, r.reference_start))
+    with pysam.AlignmentFile(path, 'wb', header=header) as out:
+        for r in recs:
+            out.write(r)
+    pysam.index(path)
+    return len(recs)
+
+
+def invalid_for(frag, method):
+    """is this fragment *invalid* (rejected, removed by --no_rejects) for the method - generator's label"""
+    d = frag.get('defect')
+    if d in ('r1unmapped', 'orphan_r2', 'unplaced', 'qcfail'):
+        return True
+    if method == 'nla' and d == 'nomotif':
+        return True
+    return False
